@@ -43,6 +43,7 @@ type pipeline struct {
 	// beforeExplorerReload, if set, is called between the scrape manager's and the explorer's reload callbacks (a
 	// harness callback in the ConfigManager's list; it does nothing but signal)
 	beforeExplorerReload func()
+	clientLog            clientLog // requests of the stamped job clients, as the client saw them
 }
 
 func newPipeline(workers int) *pipeline {
@@ -191,12 +192,59 @@ func group(source string, targets []map[string]string) *targetgroup.Group {
 // stampTransport adds the moment a probe leaves the explorer (client side) to the request: under heavy load the
 // target's handler may start seconds later, and attributing a probe to the period in which the HANDLER started
 // blames the wrong presence period of a target that left discovery and came back in between.
-type stampTransport struct{ inner http.RoundTripper }
+type stampTransport struct {
+	inner http.RoundTripper
+	log   *clientLog
+}
+
+// clientAttempt is one request as the explorer's HTTP client saw it.
+type clientAttempt struct {
+	Path   string
+	SentNs int64
+	Sent   time.Time
+	Done   time.Time // zero: still in flight
+	Err    string    // transport-level error (the request may never have reached the target)
+	Status int
+}
+
+type clientLog struct {
+	mu       sync.Mutex
+	attempts []*clientAttempt
+}
+
+func (l *clientLog) snapshot() []clientAttempt {
+	l.mu.Lock()
+	defer l.mu.Unlock()
+	out := make([]clientAttempt, 0, len(l.attempts))
+	for _, a := range l.attempts {
+		out = append(out, *a)
+	}
+	return out
+}
 
 func (s stampTransport) RoundTrip(r *http.Request) (*http.Response, error) {
 	r2 := r.Clone(r.Context())
-	r2.Header.Set("X-Harness-Sent", strconv.FormatInt(time.Now().UnixNano(), 10))
-	return s.inner.RoundTrip(r2)
+	now := time.Now()
+	r2.Header.Set("X-Harness-Sent", strconv.FormatInt(now.UnixNano(), 10))
+	var a *clientAttempt
+	if s.log != nil {
+		a = &clientAttempt{Path: r.URL.Path, SentNs: now.UnixNano(), Sent: now}
+		s.log.mu.Lock()
+		s.log.attempts = append(s.log.attempts, a)
+		s.log.mu.Unlock()
+	}
+	resp, err := s.inner.RoundTrip(r2)
+	if a != nil {
+		s.log.mu.Lock()
+		a.Done = time.Now()
+		if err != nil {
+			a.Err = err.Error()
+		} else {
+			a.Status = resp.StatusCode
+		}
+		s.log.mu.Unlock()
+	}
+	return resp, err
 }
 
 // stampClients wraps the HTTP clients of the given jobs (JobInfo.Cli is an exported field; the job objects are
@@ -215,7 +263,7 @@ func (p *pipeline) stampClients(jobs ...string) {
 			inner = http.DefaultTransport
 		}
 		cli := *ji.Cli
-		cli.Transport = stampTransport{inner: inner}
+		cli.Transport = stampTransport{inner: inner, log: &p.clientLog}
 		ji.Cli = &cli
 	}
 }
